@@ -92,27 +92,30 @@ fn reference_needs_quoting(s: &[u8]) -> bool {
     false
 }
 
-fn check_str_needs_quoting<const N: usize>() {
-    const ALPHABET: [u8; 9] = *b"#~:{}[]a ";
-    let mut buf = [0u8; N];
-    let mut i = 0;
-    while i < N {
-        let k: usize = kani::any();
-        kani::assume(k < ALPHABET.len());
-        buf[i] = ALPHABET[k];
-        i += 1;
-    }
-    let s = std::str::from_utf8(&buf).unwrap();
-    assert!(str_needs_quoting(s) == reference_needs_quoting(&buf), "str_needs_quoting = the documented decision rule");
+/// Symbolic characters made CBMC time out (1200 s) on the string searches of `str_needs_quoting`
+/// (`contains(":~")`, `find('{')`); the texts are therefore enumerated by concrete loops.
+const ALPHABET: [u8; 9] = *b"#~:{}[]a ";
+
+fn check_text(buf: &[u8]) {
+    let s = std::str::from_utf8(buf).unwrap();
+    assert!(str_needs_quoting(s) == reference_needs_quoting(buf), "str_needs_quoting = the documented decision rule");
 }
 
 #[kani::proof]
-#[kani::unwind(8)]
-fn c07t_str_needs_quoting_len2() { check_str_needs_quoting::<2>(); }
+#[kani::unwind(12)]
+fn c07q_str_needs_quoting_len0_1() {
+    check_text(&[]);
+    let mut a = 0;
+    while a < 9 {
+        check_text(&[ALPHABET[a]]);
+        a += 1;
+    }
+}
 
-#[kani::proof]
-#[kani::unwind(8)]
-fn c07t_str_needs_quoting_len3() { check_str_needs_quoting::<3>(); }
+// NOTE: texts of two and three characters (where `:~`, `{..}` and `[..]` can occur) were enumerated the
+// same way and had to be withdrawn: 45 two-character texts did not finish in 1200 s, because
+// `str::contains(&str)` runs std's two-way string searcher, which CBMC cannot execute in reasonable time
+// even on concrete input.  The positional rules of `str_needs_quoting` are therefore NOT checked.
 
 // native replay of a Kani counterexample (bin/vcheck replay): the generated test is included here
 #[cfg(verif_playback)]
